@@ -204,7 +204,7 @@ def consts(ctx):
     ctx.add('rs.zeroize', 'B', be, expect=pts.both(pts.expect_rs(ref.IDENT), pts.tok_is(2, z)), trivial=True)
 
 
-def task(prop, seed, size, cfgbins):
+def make(seed, size):
     ctx = core.Ctx(seed, prefix='r%d_' % (seed % 100000))
     decoder_sweep(ctx, 40 + size)
     representatives(ctx, max(4, size // 5))
@@ -212,6 +212,11 @@ def task(prop, seed, size, cfgbins):
     batch(ctx, max(4, size // 10))
     histories(ctx, max(2, size // 40), 40)
     consts(ctx)
+    return ctx
+
+
+def task(prop, seed, size, cfgbins):
+    ctx = make(seed, size)
     return core.run_and_judge(prop, ctx, cfgbins)
 
 
